@@ -1816,7 +1816,7 @@ fn main() {
 
     let maxn = if run.is_thorough() { 4000 } else { 2000 };
 
-    let n = run.scale(16_000, 400_000);
+    let n = run.scale(16_000, 200_000);
     run.section(
         "helmert-epochs",
         "bare helmert operators with every combination of rate kinds (translation, rotation, scale), both conventions, exact/small-angle, with/without t_obs x sets with mixed epochs incl. NaN/inf epochs x permutation x chunking x history; non-trivial = >= 2 tuples, >= 2 distinct epochs on a time-dependent operator (or a failing member next to a valid one, or a non-identity permutation) and at least one finite result that differs from its input",
@@ -1825,7 +1825,7 @@ fn main() {
         |c: &Case, rec: &mut Rec| check(c, rec, true),
     );
 
-    let n = run.scale(16_000, 400_000);
+    let n = run.scale(16_000, 200_000);
     run.section(
         "elementary",
         "one built-in operator (whole catalogue, valid parameters, optional inv) x direction x heterogeneous set of 0..2000 tuples (valid, duplicates, out-of-domain, partial/all NaN, arbitrary f64 classes, special epochs) x permutation x chunking (empty chunks included) x history of other applications x fresh context; whole = singletons = permuted = chunked = repeated bit for bit, count(whole) = sum over parts",
@@ -1834,7 +1834,7 @@ fn main() {
         |c: &Case, rec: &mut Rec| check(c, rec, false),
     );
 
-    let n = run.scale(6_000, 150_000);
+    let n = run.scale(6_000, 75_000);
     run.section(
         "grid-operators",
         "gridshift (2-band datum, 1-band geoid), deformation (3-band, t_epoch or dt, raw) and deflection on 1..3 generated overlapping Gravsoft grids with optional-missing and @null entries; points inside, in the half-cell margin and outside; mixed epochs",
@@ -1843,7 +1843,7 @@ fn main() {
         |c: &Case, rec: &mut Rec| check(c, rec, false),
     );
 
-    let n = run.scale(10_000, 300_000);
+    let n = run.scale(10_000, 120_000);
     run.section(
         "pipelines",
         "type-correct pipelines of 2..6 steps (geo:in, cart, helmert, deformation, gridshift, molodensky, projections and their inverses, adapt, axisswap, unitconvert, latitude, depth-balanced stack blocks, user macros) x direction x heterogeneous sets; same relations; count(whole) >= sum(parts)",
@@ -1852,7 +1852,7 @@ fn main() {
         |c: &Case, rec: &mut Rec| check(c, rec, false),
     );
 
-    let n = run.scale(8_000, 200_000);
+    let n = run.scale(8_000, 100_000);
     let maxlen = if run.is_thorough() { 20 } else { 12 };
     run.section(
         "stack-programs",
@@ -1862,7 +1862,7 @@ fn main() {
         |c: &Case, rec: &mut Rec| check(c, rec, false),
     );
 
-    let n = run.scale(6_000, 100_000);
+    let n = run.scale(6_000, 60_000);
     run.section(
         "containers",
         "every container kind (Vec / slice / array of Coor4D, Coor3D, Coor2D, Coor32, each alone, with (T, t) and with (T, h, t): 36 kinds, all run for every case) x single operators (whole catalogue) and pipelines restricted to steps that write only carried dimensions; reference = the tuples the container exposes, in a Vec<Coor4D>; non-trivial = a carried element changed to a finite value",
